@@ -18,7 +18,7 @@ fn base_config(r: &mut Rng, id: &str) -> SimConfig {
     let mut cfg = SimConfig::default();
     cfg.operators.push(OperCfg { name: "root".into(), password: "rootpw".into(), mask: None });
     if r.chance(1, 2) {
-        cfg.operators.push(OperCfg { name: "ops".into(), password: "opspw".into(), mask: Some(["*!*@10.0.0.1", "*!*@10.0.0.*", "ann!*@*", "*!~u1@*"][r.below(4)].into()) });
+        cfg.operators.push(OperCfg { name: "ops".into(), password: "opspw".into(), mask: Some(["*!*@10.0.0.1", "*!*@10.0.0.*", "ann!*@*", "*!~u1@*", "an*nn!~u0@10.0.0.1", "ann!~u0@10.0.0.1*0.1", "ann!~u0@10.0.0.*1", "ann", "ann@10.0.0.1", "ann!~u0", "*.0.0.1", "*@10.0.0.1"][r.below(12)].into()) });
     }
     cfg.max_joins = [None, None, Some(1), Some(2), Some(3)][r.below(5)];
     if matches!(id, "C19" | "C03" | "C02") && r.chance(1, 2) {
@@ -67,6 +67,35 @@ fn base_config(r: &mut Rng, id: &str) -> SimConfig {
             ch.protecteds = vec!["cat".into()];
         }
         cfg.channels.push(ch);
+        if r.chance(1, 3) {
+            // a second predefined channel with other settings (which channel is which must not get mixed up)
+            let mut d = ChanCfg { name: "#d".into(), ..Default::default() };
+            if r.chance(1, 2) {
+                d.topic = Some("topic of d".into());
+            }
+            if r.chance(1, 3) {
+                d.key = Some("dkey".into());
+            }
+            if r.chance(1, 4) {
+                d.client_limit = Some(r.range(1, 4));
+            }
+            d.moderated = r.chance(1, 4);
+            d.secret = r.chance(1, 5);
+            d.protected_topic = r.chance(1, 2);
+            if r.chance(1, 2) {
+                d.founders = vec!["bob".into()];
+            }
+            if r.chance(1, 3) {
+                d.voices = vec!["ann".into()];
+            }
+            if r.chance(1, 3) {
+                d.half_operators = vec!["cat".into(), "ann".into()];
+            }
+            if r.chance(1, 4) {
+                d.ban = vec!["ann!*@*".into()];
+            }
+            cfg.channels.push(d);
+        }
     }
     if r.chance(1, if heavy_cfg { 3 } else { 8 }) {
         cfg.channels.push(ChanCfg { name: "#sec".into(), secret: true, topic: Some("hidden".into()), ..Default::default() });
@@ -88,7 +117,8 @@ fn base_config(r: &mut Rng, id: &str) -> SimConfig {
     }
     if id == "C14" {
         // masks in the configuration: operator masks, user masks, predefined lists
-        let ms = ["*!*@10.0.0.*", "?nn!*@*", "*!~u?@*", "a*!*@*", "*!*@*:*", "*n*!*@*", "ann!~u0@10.0.0.1", "*!*@10.0.0.1?", "żół?!*@*", "*!*@2001:db8::*"];
+        // (operator and user masks are plain whole-text globs: short forms are NOT completed there)
+        let ms = ["ann", "bob@10.0.0.2", "*.0.0.1", "ann!~u0", "*!*@10.0.0.*", "?nn!*@*", "*!~u?@*", "a*!*@*", "*!*@*:*", "*n*!*@*", "ann!~u0@10.0.0.1", "*!*@10.0.0.1?", "żół?!*@*", "*!*@2001:db8::*"];
         if r.chance(1, 2) {
             cfg.operators.push(OperCfg { name: "masked".into(), password: "mpw".into(), mask: Some(ms[r.below(ms.len())].into()) });
         }
@@ -115,7 +145,8 @@ fn base_config(r: &mut Rng, id: &str) -> SimConfig {
                 name: "u1".into(),
                 nick: "bob".into(),
                 password: if r.chance(1, 2) { Some("u1pass".into()) } else { None },
-                mask: [None, Some("*!*@10.0.0.2".to_string()), Some("*!*@10.9.9.9".to_string()), Some("bob!*@*".to_string())][r.below(4)].clone(),
+                // incl. masks whose literal head and tail overlap in the candidate's source (must not match) or just fit (must match)
+                mask: [None, Some("*!*@10.0.0.2".to_string()), Some("*!*@10.9.9.9".to_string()), Some("bob!*@*".to_string()), Some("bo*ob!~u1@10.0.0.2".to_string()), Some("bob!~u1@10.0.0.*2".to_string()), Some("bob!~u1@10.0.0.2*.0.2".to_string()), Some("bob".to_string()), Some("bob@10.0.0.2".to_string()), Some("*.0.0.2".to_string())][r.below(10)].clone(),
             });
         }
         // further configured users with different settings (who is who must not get mixed up)
